@@ -36,6 +36,13 @@ def law_object(name):
     from astropy import units as u
     from sedfitter.extinction import Extinction
     wt, ct = law_table(name)
+    if name.endswith('@file'):
+        # the same law read from a three-column text file whose wavelength column is the LAST one (columns=(2, 0))
+        import tempfile
+        fd, path = tempfile.mkstemp(suffix='.txt', prefix='law_')
+        os.close(fd)
+        np.savetxt(path, np.column_stack([ct, ct * 0.5 + 1.0, wt]), header='chi junk wav')
+        return Extinction.from_file(path, columns=(2, 0), wav_unit=u.micron, chi_unit=u.cm ** 2 / u.g)
     e = Extinction()
     if '@' in name:         # the same law tabulated in another length unit / opacity unit
         e.wav = (wt * u.micron).to(u.Unit(name.split('@')[1]))
